@@ -40,6 +40,12 @@ def main():
             "repo_head": sh("git -C /repo rev-parse --short HEAD").stdout.strip(), "ran": []}
     try:
         r = sh("git -C %s apply %s" % (wt, os.path.abspath(a.patch)))
+        if r.returncode != 0:
+            # later fix: commits moved the context: try a three-way merge against the blobs the patch names
+            r = sh("git -C %s apply --3way %s" % (wt, os.path.abspath(a.patch)))
+            if r.returncode == 0:
+                sh("git -C %s reset -q" % wt)
+                meta["patch_applied_with"] = "git apply --3way"
         meta["patch_applies"] = r.returncode == 0
         if r.returncode != 0:
             meta["apply_error"] = r.stderr[-500:]
@@ -85,7 +91,8 @@ def finish(a, meta, wt):
         out.mkdir(parents=True, exist_ok=True)
         shutil.copy(a.patch, out / "patch.diff"); shutil.copy(a.demo, out / "demo.py")
         for x in [e for e in a.extra.split(",") if e]:
-            shutil.copy(x, out / os.path.basename(x))
+            if os.path.abspath(x) != os.path.abspath(out / os.path.basename(x)):
+                shutil.copy(x, out / os.path.basename(x))
         (out / "meta.json").write_text(json.dumps(meta, indent=1))
     print(json.dumps(meta, indent=1))
     return 0
